@@ -182,11 +182,24 @@ func c07Compare(what string, pat psi.PAT, m *ref.PAT, probe []int) *hx.Failure {
 			break
 		}
 	}
-	for _, p := range pids {
-		pk := packet.Create(p, packet.WithHasPayloadFlag)
+	for i, p := range pids {
+		// the classification goes by PID: payload only, adaptation field and payload, adaptation field only (all well-formed)
+		var pk *packet.Packet
+		switch i % 3 {
+		case 0:
+			pk = packet.Create(p, packet.WithHasPayloadFlag)
+		case 1:
+			b := (&ref.Packet{Sync: 0x47, PID: p, AFC: 3, CC: i & 15, AF: &ref.AF{Len: 7, RA: true}, Payload: bytes.Repeat([]byte{0x5A}, 176)}).MustBytes()
+			q := packet.Packet(b)
+			pk = &q
+		default:
+			b := (&ref.Packet{Sync: 0x47, PID: p, AFC: 2, CC: i & 15, AF: &ref.AF{Len: 183}, Payload: ref.Hex{}}).MustBytes()
+			q := packet.Packet(b)
+			pk = &q
+		}
 		is, err := psi.IsPMT(pk, pat)
 		if err != nil || is != values[p] {
-			return hx.Failf("ispmt", "%s: IsPMT(packet with PID %d) = (%v, %v), want %v", what, p, is, err, values[p])
+			return hx.Failf("ispmt", "%s: IsPMT(packet with PID %d, adaptation_field_control %d) = (%v, %v), want %v", what, p, pk[3]>>4&3, is, err, values[p])
 		}
 	}
 	return nil
